@@ -92,18 +92,28 @@ def possible_strings(f, e, depth=4):
     if isinstance(e, ast.Name) and depth > 0:
         if e.id in f.params and not stores_to(f, e.id):
             return None
-        vals = [v for _, v in stores_to(f, e.id)]
+        binds = stores_to(f, e.id)
+        vals = [v for _, v in binds]
         if not vals or any(v is None for v in vals):
             return None
         out = set()
-        for v in vals:
+        augs = []
+        for st, v in binds:
             # `prune = '--prune' if prune else ''` : the parameter itself is
             # only tested, never spliced
             pv = possible_strings(f, v, depth - 1)
             if pv is None:
                 return None
-            out |= pv
-        return out
+            if isinstance(st, ast.AugAssign):
+                if not isinstance(st.op, ast.Add):
+                    return None
+                augs.append((st.lineno, pv))    # command += '--flag'
+            else:
+                out |= pv
+        # a command built in steps: each `+=` may or may not have run
+        for _, pv in sorted(augs, key=lambda a_: a_[0]):
+            out |= {x + y for x in out for y in pv}
+        return out or None
     return None
 
 
